@@ -127,7 +127,7 @@ def lruUrlOp (j : Json) : Json :=
     ("stems", match lruStemsUrl sp sa u with
       | some st => jlist (st.map jchars) | none => jerr "ValueError"),
     ("lru", match lru with | some l => jchars l | none => jerr "ValueError"),
-    ("in_class", jbool (inClass sp sa u)),
+    ("in_class", jbool (inClass u)),
     ("back", match back with | some b => jchars b | none => jerr "ValueError"),
     ("reparse", jOptParts (back.bind reparse)),
     ("relru", match back.bind (urlToLru sp2 sa) with
